@@ -19,7 +19,8 @@ inductive Err
   | InvalidOperation           -- decimal.InvalidOperation: `0 / 0`
   | AssertionError
   | KeyError
-  | ValueError                 -- negative shift count
+  | ValueError                 -- negative shift count, `max([])`
+  | TypeError                  -- `None` used as a value (`None < x`, `None + x`)
   | Raised (cls : String)      -- `raise Cls(...)`
   | Unsupported (what : String) -- execution leaves the translated subset (e.g. `int ** negative` is a float)
   deriving DecidableEq, Repr
@@ -75,6 +76,30 @@ def lookup {α : Type} (d : List (String × α)) (k : String) : M α :=
 
 /-- `k in d` -/
 def hasKey {α : Type} (d : List (String × α)) (k : String) : Bool := d.any (fun p => p.1 == k)
+
+/-- an `Optional` used as a value -/
+def unwrap {α : Type} : Option α → M α
+  | some a => .ok a
+  | none => .error .TypeError
+
+/-- `datetime(t.year, t.month, t.day, t.hour, t.minute)` of a time counted in whole seconds from a minute-aligned epoch: seconds dropped -/
+def floorMinute (t : Int) : Int := t - Int.fmod t 60
+
+/-- `max(xs)` of a list; `ValueError` on the empty list.  (the value is what matters: for numbers every maximal element is the same number) -/
+def listMax : List Int → M Int
+  | [] => .error .ValueError
+  | [x] => .ok x
+  | x :: y :: l => do
+    let m ← listMax (y :: l)
+    pure (if x < m then m else x)
+
+/-- `while cond: body` over the loop state `σ` with a fuel bound (structural recursion): when the fuel runs out while the condition still holds
+    the result is `Unsupported` — a tie theorem about a translated loop states how much fuel suffices -/
+def whileFuel {σ : Type} (cond : σ → M Bool) (body : σ → M σ) : Nat → σ → M σ
+  | 0, s => do
+    if (← cond s) then throw (.Unsupported "out of fuel") else pure s
+  | f + 1, s => do
+    if (← cond s) then whileFuel cond body f (← body s) else pure s
 
 /-- a Decimal that may be `Decimal("inf")` -/
 inductive XDec
